@@ -567,16 +567,43 @@ func c05Ctx(r *core.Run, fn *core.FuncInfo, action string) {
 	}
 	// read key == written key
 	readsKey := false
-	ast.Inspect(builder.Decl.Body, func(n ast.Node) bool {
-		if ix, ok := n.(*ast.IndexExpr); ok {
-			if c := core.ConstObj(builder.Pkg.TypesInfo, ix.Index); c != nil && c.Name() == "ActionContext" {
-				readsKey = true
-			}
+	// (the decoding may sit in a helper of the package the builder calls)
+	scan := []*core.FuncInfo{builder}
+	for _, cs := range w.Calls(builder) {
+		if h := w.Info(cs.Static); h != nil && h.Pkg == builder.Pkg && h != builder && h.Decl.Body != nil {
+			scan = append(scan, h)
 		}
-		return true
-	})
+	}
+	for _, g := range scan {
+		ast.Inspect(g.Decl.Body, func(n ast.Node) bool {
+			if ix, ok := n.(*ast.IndexExpr); ok {
+				if c := core.ConstObj(g.Pkg.TypesInfo, ix.Index); c != nil && c.Name() == "ActionContext" {
+					readsKey = true
+				}
+			}
+			return true
+		})
+	}
 	r.Check(readsKey, "C05.ctx", bk+"ActionContext key", w.Pos(builder.Decl.Pos()), "the action context is read under constant.ActionContext, the key it is written under", "the action context is not read under constant.ActionContext (the key used when registering)")
+	originFollowHelpers, originFollowSingle = true, true
 	ac := origin(builder, litField(lit, "ActionContext"), 5)
+	originFollowHelpers, originFollowSingle = false, false
+	if !strings.Contains(ac, "const:ActionContext") {
+		// decoded by a helper of the package: what that helper returns
+		for _, g := range scan[1:] {
+			if !strings.HasPrefix(ac, "call:"+core.ShortKey(g.Obj)+"(") {
+				continue
+			}
+			ast.Inspect(g.Decl.Body, func(n ast.Node) bool {
+				if rs, ok := n.(*ast.ReturnStmt); ok && len(rs.Results) == 1 {
+					if o := origin(g, rs.Results[0], 5); strings.Contains(o, "const:ActionContext") {
+						ac = o
+					}
+				}
+				return true
+			})
+		}
+	}
 	r.Check(strings.Contains(ac, "[const:ActionContext]") || strings.Contains(ac, "const:ActionContext"), "C05.ctx", bk+"ActionContext", w.Pos(lit.Pos()), "ActionContext derives from the decoded application data", "ActionContext derives from "+ac)
 }
 
